@@ -173,6 +173,8 @@ def run(path, obligations, timeout, workers=16, twins=True, twin_timeout=40):
                 res.update(status="discharged", reason="twin not refuted within its budget (%s); main run confirmed over all paths, which CrossHair reports only after at least one path returned" % tw["verdict"])
             else:
                 res.update(status="discharged")
+        elif r["verdict"] == "error" and "ModelLimit" in r["message"]:
+            res.update(reason="model limit: the code used the model environment in a way the model cannot answer: " + r["message"][:200])
         elif r["verdict"] == "error":
             args = parse_call(r["message"], funcs[f][2]) if f in funcs else None
             res.update(status="violated", cex=args, info=r["message"][:500])
@@ -204,6 +206,8 @@ def replay(modname, data):
     try:
         r = f(**args)
     except Exception as e:
+        if type(e).__name__ == "ModelLimit":
+            return False, "model limit reached in replay (not a violation): %s" % e
         return True, "%s(%s) raises %s: %s" % (data["func"], args, type(e).__name__, e)
     detail = getattr(mod, "LAST", None)
     return (not r), "%s(%s) returned %r%s" % (data["func"], args, r, ("; " + str(detail)) if detail else "")
